@@ -121,24 +121,29 @@ Variable c : cfg.
 Hypothesis Hkind : c_kind c = KMap.
 Hypothesis HW : 0 < c_W c.
 Hypothesis HP : 0 < c_P c.
+(* The iterator under study was started (freshly, or from a loaded state) with the sampler at batch number `off`, the worker
+   cycle at `c0` and _num_yielded = ny0; its tasks are numbered 0, 1, ... and task t carries batch number off + t. *)
+Variables off c0 ny0 : nat.
 
-Definition L := length (c_batches c).
-Definition batch (t : nat) := nth t (c_batches c) [].
+Definition L := length (c_batches c) - off.
+Definition batch (t : nat) := nth (off + t) (c_batches c) [].
 Definition isbad (t : nat) := existsb (fun i => existsb (Nat.eqb i) (c_bad c)) (batch t).
 Definition res (t : nat) := if isbad t then RErr else RData (batch t).
-Definition fmain (t : nat) := negb (c_I c =? 0) && (S t mod c_I c =? 0).
-Definition fsnap (t : nat) := negb (c_I c =? 0) && (c_I c <=? (t mod c_I c) + c_W c).
+Definition fmain (t : nat) := negb (c_I c =? 0) && (S (off + t) mod c_I c =? 0).
+Definition fsnap (t : nat) := negb (c_I c =? 0) && (c_I c <=? ((off + t) mod c_I c) + c_W c).
 Definition st_of (t : nat) : option wsave := if fsnap t then Some (0, false) else None.
 Definition task_of (t : nat) := {| t_idx := t; t_index := batch t; t_snap := fsnap t |}.
 Definition nerr (k : nat) := length (filter isbad (seq 0 k)).
+Definition wof (t : nat) := (c0 + t) mod c_W c.            (* the worker that task t is dispatched to *)
+Definition mst (t : nat) : mainstate := (S (off + t), S (off + t)).   (* the main snapshot recorded with task t *)
 
 Record InvG (k n : nat) (s : ms) : Prop := {
   g_kn : k <= n <= L;
-  g_rcvd : m_rcvd s = k; g_send : m_send s = n; g_siy : m_siy s = n; g_samp : m_samp s = n;
-  g_cyc : m_cyc s = n mod c_W c;
+  g_rcvd : m_rcvd s = k; g_send : m_send s = n; g_siy : m_siy s = off + n; g_samp : m_samp s = off + n;
+  g_cyc : m_cyc s = wof n;
   g_wf : wf_info (m_info s);
   g_info : forall t, match info_get (m_info s) t with
-                     | Some (w, r) => k <= t < n /\ w = t mod c_W c /\ (r = None \/ r = Some (res t, st_of t))
+                     | Some (w, r) => k <= t < n /\ w = wof t /\ (r = None \/ r = Some (res t, st_of t))
                      | None => ~ (k <= t < n)
                      end;
   g_len : length (m_info s) = n - k;
@@ -148,12 +153,12 @@ Record InvG (k n : nat) (s : ms) : Prop := {
           sorted_from k (map t_idx (wk_q (nth w (m_workers s) wk_fresh))) /\
           (forall tk, In tk (wk_q (nth w (m_workers s) wk_fresh)) -> tk = task_of (t_idx tk)) /\
           (forall t, In t (map t_idx (wk_q (nth w (m_workers s) wk_fresh))) <->
-                     (t mod c_W c = w /\ info_get (m_info s) t = Some (w, None)));
+                     (wof t = w /\ info_get (m_info s) t = Some (w, None)));
   g_dead : forall w, w < c_W c -> wk_dead (nth w (m_workers s) wk_fresh) = false;
   g_status : m_status s = repeat true (c_W c);
   g_ms : msorted 0 (m_msnaps s) /\
-         (forall t m, In (t, m) (m_msnaps s) -> t < n /\ fmain t = true /\ m = (S t, S t)) /\
-         (forall t, k <= t < n -> fmain t = true -> In (t, (S t, S t)) (m_msnaps s));
+         (forall t m, In (t, m) (m_msnaps s) -> t < n /\ fmain t = true /\ m = mst t) /\
+         (forall t, k <= t < n -> fmain t = true -> In (t, mst t) (m_msnaps s));
   g_assert : m_assert s = None }.
 
 (* the parts of the state that try_put_index never touches *)
@@ -164,7 +169,8 @@ Definition same_rest (s s' : ms) : Prop :=
 (* a main snapshot is only requested together with a worker snapshot: `assert snapshot` cannot fire *)
 Lemma fmain_fsnap t : fmain t = true -> fsnap t = true.
 Proof.
-  unfold fmain, fsnap. destruct (c_I c =? 0) eqn:EI; cbn; [discriminate|]. apply Nat.eqb_neq in EI.
+  unfold fmain, fsnap. generalize (off + t). clear t. intros t.
+  destruct (c_I c =? 0) eqn:EI; cbn; [discriminate|]. apply Nat.eqb_neq in EI.
   intros H. apply Nat.eqb_eq in H. apply Nat.leb_le.
   assert (t mod c_I c = c_I c - 1) as ->; [|lia].
   pose proof (Nat.mod_upper_bound t (c_I c) EI) as Hlt.
@@ -174,10 +180,13 @@ Proof.
   rewrite Ht at 1. rewrite Nat.add_comm, Nat.mul_comm, Nat.mod_add by exact EI. apply Nat.mod_small. lia.
 Qed.
 
-Lemma succ_mod n : S (n mod c_W c) mod c_W c = S n mod c_W c.
+Lemma wof_lt t : wof t < c_W c.
+Proof. unfold wof. apply Nat.mod_upper_bound. lia. Qed.
+
+Lemma succ_wof n : S (wof n) mod c_W c = wof (S n).
 Proof.
-  assert (c_W c <> 0) as Hne by lia.
-  replace (S (n mod c_W c)) with (n mod c_W c + 1) by lia. replace (S n) with (n + 1) by lia.
+  assert (c_W c <> 0) as Hne by lia. unfold wof.
+  replace (S ((c0 + n) mod c_W c)) with ((c0 + n) mod c_W c + 1) by lia. replace (c0 + S n) with (c0 + n + 1) by lia.
   rewrite Nat.add_mod_idemp_l by exact Hne. reflexivity.
 Qed.
 
@@ -187,13 +196,14 @@ Proof.
 Qed.
 
 Lemma find_worker_W n :
-  find_worker (c_W c) (c_W c) (repeat true (c_W c)) (n mod c_W c) = (Some (n mod c_W c), S n mod c_W c).
-Proof. rewrite <- succ_mod. apply find_worker_all_true. exact HW. Qed.
+  find_worker (c_W c) (c_W c) (repeat true (c_W c)) (wof n) = (Some (wof n), wof (S n)).
+Proof. rewrite <- succ_wof. apply find_worker_all_true. exact HW. Qed.
 
 Lemma flags_eq n :
-  (if c_I c =? 0 then (false, false) else (S n mod c_I c =? 0, c_I c <=? (S n - 1) mod c_I c + c_W c)) = (fmain n, fsnap n).
+  (if c_I c =? 0 then (false, false)
+   else (S (off + n) mod c_I c =? 0, c_I c <=? (S (off + n) - 1) mod c_I c + c_W c)) = (fmain n, fsnap n).
 Proof.
-  unfold fmain, fsnap. replace (S n - 1) with n by lia. destruct (c_I c =? 0); reflexivity.
+  unfold fmain, fsnap. replace (S (off + n) - 1) with (off + n) by lia. destruct (c_I c =? 0); reflexivity.
 Qed.
 
 Lemma try_put_inv k n s : InvG k n s -> n < L -> n - k < c_W c * c_P c ->
@@ -202,14 +212,14 @@ Proof.
   intros H HnL Hroom.
   assert (m_outst s <? c_P c * c_W c = true) as Hout.
   { apply Nat.ltb_lt. pose proof (g_cnt _ _ _ H). pose proof (g_len _ _ _ H). rewrite Nat.mul_comm. lia. }
-  assert (nth_error (c_batches c) n = Some (batch n)) as Hb by (unfold batch; apply nth_error_nth'; exact HnL).
-  pose proof (Nat.mod_upper_bound n (c_W c) ltac:(lia)) as Hwlt.
+  assert (nth_error (c_batches c) (off + n) = Some (batch n)) as Hb by (unfold batch; apply nth_error_nth'; unfold L in HnL; lia).
+  pose proof (wof_lt n) as Hwlt.
   unfold try_put_index. rewrite Hout, Hkind, (g_samp _ _ _ H), Hb, (g_siy _ _ _ H), flags_eq.
   rewrite (g_status _ _ _ H), (g_cyc _ _ _ H), find_worker_W.
   assert (fmain n && negb (fsnap n) = false) as Hfl.
   { destruct (fmain n) eqn:E; [rewrite (fmain_fsnap n E); reflexivity | reflexivity]. }
   rewrite Hfl. cbn [fst snd].
-  set (w := n mod c_W c) in *.
+  set (w := wof n) in *.
   split; [|repeat split; reflexivity].
   pose proof (g_kn _ _ _ H) as [Hkn HnL'].
   assert (info_get (m_info s) n = None) as Hfresh by (eapply info_get_fresh; [exact H | lia]).
@@ -222,8 +232,8 @@ Proof.
   - lia.
   - exact (g_rcvd _ _ _ H).
   - rewrite (g_send _ _ _ H). reflexivity.
-  - reflexivity.
-  - reflexivity.
+  - lia.
+  - lia.
   - reflexivity.
   - rewrite (g_send _ _ _ H). apply wf_app; [exact (g_wf _ _ _ H) | exact Hfresh].
   - intros t. rewrite (g_send _ _ _ H), Hget. destruct (Nat.eqb_spec t n) as [->|Hne].
@@ -267,7 +277,7 @@ Proof.
   assert (m_outst s <? c_P c * c_W c = true) as Hout.
   { apply Nat.ltb_lt. pose proof (g_cnt _ _ _ H). pose proof (g_len _ _ _ H). rewrite Nat.mul_comm. lia. }
   unfold try_put_index. rewrite Hout, Hkind, (g_samp _ _ _ H).
-  assert (nth_error (c_batches c) L = None) as -> by (apply nth_error_None; unfold L; lia).
+  assert (nth_error (c_batches c) (off + L) = None) as -> by (apply nth_error_None; pose proof (g_kn _ _ _ H); unfold L in *; lia).
   reflexivity.
 Qed.
 
@@ -345,7 +355,7 @@ Qed.
 
 Lemma queue_head k n s w tk q' : InvG k n s -> w < c_W c ->
   wk_q (nth w (m_workers s) wk_fresh) = tk :: q' ->
-  tk = task_of (t_idx tk) /\ k <= t_idx tk < n /\ t_idx tk mod c_W c = w /\ info_get (m_info s) (t_idx tk) = Some (w, None) /\
+  tk = task_of (t_idx tk) /\ k <= t_idx tk < n /\ wof (t_idx tk) = w /\ info_get (m_info s) (t_idx tk) = Some (w, None) /\
   sorted_from (S (t_idx tk)) (map t_idx q') /\ ~ In (t_idx tk) (map t_idx q').
 Proof.
   intros H Hw Hq. destruct (g_q _ _ _ H w Hw) as (Q1 & Q2 & Q3). rewrite Hq in *. cbn in Q1. destruct Q1 as [Q1a Q1b].
@@ -419,7 +429,7 @@ Lemma deliver_direct k n s w q' : InvG k n s -> w < c_W c ->
   wk_q (nth w (m_workers s) wk_fresh) = task_of k :: q' ->
   let s1 := arr_state s w q' in
   let s3 := upd_core s1 (S (m_rcvd s1)) (info_del (m_info s1) k) (m_wsnap s1) in
-  InvG (S k) n s3 /\ m_ny s3 = m_ny s /\ w = k mod c_W c.
+  InvG (S k) n s3 /\ m_ny s3 = m_ny s /\ w = wof k.
 Proof.
   intros H Hw Hq s1 s3.
   destruct (queue_head _ _ _ _ _ _ H Hw Hq) as (_ & Hr & Hm & Hi & Hs & Hni). cbn [t_idx task_of] in *.
@@ -446,7 +456,7 @@ Qed.
 Lemma deliver_buffered k n s w r st : InvG k n s -> k < n ->
   info_get (m_info s) k = Some (w, Some (r, st)) ->
   let s1 := upd_core s (S (m_rcvd s)) (info_del (m_info s) k) (m_wsnap s) in
-  InvG (S k) n s1 /\ m_ny s1 = m_ny s /\ w = k mod c_W c /\ r = res k /\ st = st_of k.
+  InvG (S k) n s1 /\ m_ny s1 = m_ny s /\ w = wof k /\ r = res k /\ st = st_of k.
 Proof.
   intros H Hkn Hi s1. pose proof (g_info _ _ _ H k) as G. rewrite Hi in G. destruct G as (_ & Gw & [Gr|Gr]); [discriminate|].
   injection Gr as -> ->. split; [|repeat split; auto].
@@ -463,7 +473,7 @@ Qed.
 
 (* ------------------------------------------------------------------ *)
 (* handing a result to the user: _process_data *)
-Hypothesis Hgood : c_I c <= 1 \/ c_bad c = [].
+Hypothesis Hgood : c_I c <= 1 \/ (c_bad c = [] /\ ny0 = off).
 
 Definition expected (k : nat) : outcome := if isbad k then OErr else OBatch (batch k).
 Definition nextn (n : nat) : nat := if n <? L then S n else n.
@@ -482,18 +492,25 @@ Lemma inv_frame k n s s' : InvG k n s ->
   m_info s' = m_info s -> m_outst s' = m_outst s -> m_workers s' = m_workers s -> m_status s' = m_status s ->
   m_assert s' = m_assert s ->
   (msorted 0 (m_msnaps s') /\
-   (forall t m, In (t, m) (m_msnaps s') -> t < n /\ fmain t = true /\ m = (S t, S t)) /\
-   (forall t, k <= t < n -> fmain t = true -> In (t, (S t, S t)) (m_msnaps s'))) ->
+   (forall t m, In (t, m) (m_msnaps s') -> t < n /\ fmain t = true /\ m = mst t) /\
+   (forall t, k <= t < n -> fmain t = true -> In (t, mst t) (m_msnaps s'))) ->
   InvG k n s'.
 Proof.
   intros H E1 E2 E3 E4 E5 E6 E7 E8 E9 E10 HM.
   constructor; rewrite ?E1, ?E2, ?E3, ?E4, ?E5, ?E6, ?E7, ?E8, ?E9, ?E10; try apply H; exact HM.
 Qed.
 
-Lemma process_map k n s : InvG (S k) n s -> m_ny s + nerr k = k -> n <= k + c_W c * c_P c ->
-  (fmain k = true -> In (k, (S k, S k)) (m_msnaps s)) ->
-  exists s', process_data c s (res k) (k mod c_W c) (st_of k) = (expected k, s') /\
-             InvG (S k) (nextn n) s' /\ m_ny s' + nerr (S k) = S k.
+(* what state_dict() hands out: without failing indices the snapshot names the batch number to restart from (= its step) *)
+Definition Snap (s : ms) : Prop :=
+  length (sn_workers (m_snapshot s)) = c_W c /\ length (m_wsnap s) = c_W c /\ m_finished s = false /\
+  (c_bad c = [] -> ny0 = off ->
+   sn_main (m_snapshot s) = (sn_step (m_snapshot s), sn_step (m_snapshot s)) /\
+   off <= sn_step (m_snapshot s) <= m_ny s).
+
+Lemma process_map k n s : InvG (S k) n s -> m_ny s + nerr k = ny0 + k -> n <= k + c_W c * c_P c ->
+  (fmain k = true -> In (k, mst k) (m_msnaps s)) ->
+  exists s', process_data c s (res k) (wof k) (st_of k) = (expected k, s') /\
+             InvG (S k) (nextn n) s' /\ m_ny s' + nerr (S k) = ny0 + S k /\ (Snap s -> Snap s').
 Proof.
   intros H Hny Hn Hkin. unfold process_data.
   assert (exists sp, try_put_index c s = sp /\ InvG (S k) (nextn n) sp /\ same_rest s sp /\
@@ -510,23 +527,27 @@ Proof.
   destruct Hsame as (S1 & S2 & S3 & S4 & S5 & S6).
   unfold res, expected. destruct (isbad k) eqn:Eb.
   - (* the failing batch: the error is re-raised, nothing else changes *)
-    eexists; split; [reflexivity|]. split; [exact Hsp|]. rewrite nerr_S, Eb, S2. lia.
+    eexists; split; [reflexivity|]. split; [exact Hsp|]. split; [rewrite nerr_S, Eb, S2; lia|].
+    unfold Snap. rewrite S2, S4, S5, S6. auto.
   - assert (nerr (S k) = nerr k) as Hne by (rewrite nerr_S, Eb; lia).
-    set (wsnap := match st_of k with Some x => set_nth (m_wsnap sp) (k mod c_W c) x | None => m_wsnap sp end).
+    set (wsnap := match st_of k with Some x => set_nth (m_wsnap sp) (wof k) x | None => m_wsnap sp end).
     set (s1 := {| m_send := m_send sp; m_rcvd := m_rcvd sp; m_info := m_info sp; m_outst := m_outst sp; m_status := m_status sp;
                   m_cyc := m_cyc sp; m_ny := m_ny sp; m_siy := m_siy sp; m_samp := m_samp sp; m_msnaps := m_msnaps sp;
-                  m_last := k mod c_W c; m_wsnap := wsnap; m_snapshot := m_snapshot sp; m_finished := m_finished sp;
+                  m_last := wof k; m_wsnap := wsnap; m_snapshot := m_snapshot sp; m_finished := m_finished sp;
                   m_workers := m_workers sp; m_assert := m_assert sp |}).
     assert (InvG (S k) (nextn n) s1) as Hs1 by (apply (inv_frame _ _ sp s1 Hsp); try reflexivity; exact (g_ms _ _ _ Hsp)).
+    assert (length (m_wsnap s) = c_W c -> length wsnap = c_W c) as Hwl.
+    { intros Hl. unfold wsnap. destruct (st_of k); [rewrite set_nth_length|]; rewrite S4; exact Hl. }
     destruct (negb (c_I c =? 0) && (S (m_ny s1) mod c_I c =? 0)) eqn:Esnap.
     + (* a snapshot boundary: the main snapshot recorded for task k is the one that is popped *)
       apply andb_true_iff in Esnap as [EI Emod]. apply negb_true_iff, Nat.eqb_neq in EI. apply Nat.eqb_eq in Emod.
       assert (fmain k = true) as Hfm.
       { unfold fmain. apply andb_true_iff. split; [apply negb_true_iff, Nat.eqb_neq, EI|]. apply Nat.eqb_eq.
-        destruct Hgood as [HI|Hb].
+        destruct Hgood as [HI|[Hb Hoff]].
         - assert (c_I c = 1) as -> by lia. apply Nat.mod_1_r.
-        - rewrite (nerr_nobad k Hb) in Hny. unfold s1 in Emod. cbn [m_ny] in Emod. rewrite S2 in Emod. rewrite <- Hny at 1. rewrite Nat.add_0_r. exact Emod. }
-      assert (In (k, (S k, S k)) (m_msnaps s1)) as Hin by (unfold s1; proj; apply Hsub, Hkin, Hfm).
+        - rewrite (nerr_nobad k Hb) in Hny. unfold s1 in Emod. cbn [m_ny] in Emod. rewrite S2 in Emod.
+          replace (off + k) with (m_ny s) by lia. exact Emod. }
+      assert (In (k, mst k) (m_msnaps s1)) as Hin by (unfold s1; proj; apply Hsub, Hkin, Hfm).
       unfold take_snapshot.
       assert (m_rcvd s1 - 1 = k) as Hr by (unfold s1; proj; rewrite (g_rcvd _ _ _ Hsp); lia).
       rewrite Hr.
@@ -535,16 +556,23 @@ Proof.
       destruct (pop_msnaps (m_msnaps s1) k None) as [p rest]. destruct Hpop as (P1 & P2 & P3 & P4).
       rewrite (P4 _ _ Hin eq_refl). proj. rewrite Nat.eqb_refl. proj.
       unfold s1 at 1. proj. rewrite (g_assert _ _ _ Hsp).
-      eexists; split; [reflexivity|]. split.
+      eexists; split; [reflexivity|]. split; [|split].
       * apply (inv_frame _ _ s1 _ Hs1); try reflexivity. proj. split; [apply msorted_mono with (lo := S k); [lia | exact P1]|]. split.
         -- intros t m Ht. apply P2 in Ht. destruct Ht as [Ht _]. apply M2, Ht.
         -- intros t Ht Hf. apply P2. split; [apply M3; assumption | cbn; lia].
       * proj. unfold s1. proj. rewrite S2. lia.
+      * intros (Sa & Sb & Sc & Sd). unfold Snap. proj. cbn [sn_step sn_main sn_workers]. unfold s1. proj.
+        split; [apply Hwl, Sb|]. split; [apply Hwl, Sb|]. split; [rewrite S6; exact Sc|].
+        intros Hb Hoff. rewrite (nerr_nobad k Hb) in Hny. rewrite S2. unfold mst.
+        replace (off + k) with (m_ny s) by lia. split; [reflexivity | lia].
     + (* no snapshot at this step *)
       unfold s1 at 1. proj. rewrite (g_assert _ _ _ Hsp).
-      eexists; split; [reflexivity|]. split.
+      eexists; split; [reflexivity|]. split; [|split].
       * apply (inv_frame _ _ s1 _ Hs1); try reflexivity. exact (g_ms _ _ _ Hs1).
       * proj. unfold s1. proj. rewrite S2. lia.
+      * intros (Sa & Sb & Sc & Sd). unfold Snap. unfold s1. proj.
+        split; [rewrite S5; exact Sa|]. split; [apply Hwl, Sb|]. split; [rewrite S6; exact Sc|].
+        intros Hb Hoff. destruct (Sd Hb Hoff) as [Se Sf]. rewrite S5, S2. split; [exact Se | lia].
 Qed.
 
 (* ------------------------------------------------------------------ *)
@@ -554,7 +582,7 @@ Proof.
   intros H Hkn. cbn [skip_retired]. rewrite (g_rcvd _ _ _ H), (g_send _ _ _ H).
   assert (k <? n = true) as -> by (apply Nat.ltb_lt; exact Hkn).
   pose proof (g_info _ _ _ H k) as G. destruct (info_get (m_info s) k) as [[w r]|]; [|exfalso; apply G; lia].
-  destruct G as (_ & -> & _). rewrite (g_status _ _ _ H), nth_repeat_true by (apply Nat.mod_upper_bound; lia).
+  destruct G as (_ & -> & _). rewrite (g_status _ _ _ H), nth_repeat_true by (apply wof_lt).
   rewrite orb_true_r. reflexivity.
 Qed.
 
@@ -562,30 +590,30 @@ Lemma res_not_stop t : res t <> RStop.
 Proof. unfold res. destruct (isbad t); discriminate. Qed.
 
 Lemma next_data_map : forall fuel k n s sched,
-  InvG k n s -> k < n -> m_ny s + nerr k = k -> n <= k + c_W c * c_P c -> qsum (m_workers s) < fuel ->
+  InvG k n s -> k < n -> m_ny s + nerr k = ny0 + k -> n <= k + c_W c * c_P c -> qsum (m_workers s) < fuel ->
   exists s' sched', next_data fuel c s sched = (expected k, s', sched') /\
-                    InvG (S k) (nextn n) s' /\ m_ny s' + nerr (S k) = S k.
+                    InvG (S k) (nextn n) s' /\ m_ny s' + nerr (S k) = ny0 + S k /\ (Snap s -> Snap s').
 Proof.
   induction fuel as [|f IH]; intros k n s sched H Hkn Hny Hn Hfuel; [lia|].
   cbn [next_data]. rewrite (skip_retired_hit _ k n s H Hkn). cbn [negb]. rewrite (g_rcvd _ _ _ H).
-  assert (fmain k = true -> In (k, (S k, S k)) (m_msnaps s)) as Hkin by (intros Hf; apply (g_ms _ _ _ H); [lia | exact Hf]).
+  assert (fmain k = true -> In (k, mst k) (m_msnaps s)) as Hkin by (intros Hf; apply (g_ms _ _ _ H); [lia | exact Hf]).
   destruct (info_get (m_info s) k) as [[w [[r st]|]]|] eqn:Ei.
   - (* already fetched *)
     destruct (deliver_buffered k n s w r st H Hkn Ei) as (H1 & N1 & -> & -> & ->).
     rewrite (g_rcvd _ _ _ H) in *.
     set (s1 := upd_core s (S k) (info_del (m_info s) k) (m_wsnap s)) in *.
-    destruct (process_map k n s1 H1 ltac:(rewrite N1; exact Hny) Hn Hkin) as (s' & Hp & Hi' & Hn').
+    destruct (process_map k n s1 H1 ltac:(rewrite N1; exact Hny) Hn Hkin) as (s' & Hp & Hi' & Hn' & Hsn).
     assert (forall X (a b : X), match res k with RStop => a | _ => b end = b) as Hm by (intros; unfold res; destruct (isbad k); reflexivity).
-    rewrite Hm, Hp. eauto.
+    rewrite Hm, Hp. exists s', sched. split; [reflexivity|]. split; [exact Hi'|]. split; [exact Hn'|]. intros HSnap. apply Hsn. exact HSnap.
   - (* wait for arrivals *)
     assert (m_outst s =? 0 = false) as ->.
     { apply Nat.eqb_neq. pose proof (nans_lt _ _ _ Ei). pose proof (g_cnt _ _ _ H). lia. }
     pose proof (g_info _ _ _ H k) as G. rewrite Ei in G. destruct G as (_ & Hw & _).
-    assert (w < c_W c) as Hwlt by (rewrite Hw; apply Nat.mod_upper_bound; lia).
+    assert (w < c_W c) as Hwlt by (rewrite Hw; apply wof_lt).
     assert (In w (candidates s)) as Hcand.
     { apply in_candidates. rewrite (g_wlen _ _ _ H). split; [exact Hwlt|]. split; [exact (g_dead _ _ _ H w Hwlt)|].
       destruct (g_q _ _ _ H w Hwlt) as (_ & _ & Q3). intros Hq. rewrite Hq in Q3. apply (proj2 (Q3 k)). split; [symmetry; exact Hw | exact Ei]. }
-    destruct (candidates s) as [|c0 cs] eqn:Ec; [contradiction|]. rewrite <- Ec in *.
+    destruct (candidates s) as [|cand0 cs] eqn:Ec; [contradiction|]. rewrite <- Ec in *.
     set (ch := match sched with [] => 0 | x :: _ => x end).
     set (sched' := match sched with [] => [] | _ :: r => r end).
     set (w' := nth (ch mod length (candidates s)) (candidates s) 0).
@@ -604,18 +632,19 @@ Proof.
       destruct (deliver_direct k n s w' q' H Hw'lt Eq) as (H1 & N1 & _).
       cbn [m_rcvd arr_state] in H1, N1. rewrite (g_rcvd _ _ _ H) in H1, N1.
       match type of H1 with InvG _ _ ?s3 =>
-        destruct (process_map k n s3 H1 ltac:(rewrite N1; exact Hny) Hn Hkin) as (s' & Hp & Hi' & Hn')
+        destruct (process_map k n s3 H1 ltac:(rewrite N1; exact Hny) Hn Hkin) as (s' & Hp & Hi' & Hn' & Hsn)
       end.
-      rewrite Hm2. rewrite Hm in Hp. rewrite Hp. eauto.
+      rewrite Hm2. rewrite Hm in Hp. rewrite Hp. exists s', sched'. split; [reflexivity|]. split; [exact Hi'|]. split; [exact Hn'|]. intros HSnap. apply Hsn. exact HSnap.
     + (* out of order: buffered, keep waiting *)
       destruct (buffer_inv k n s w' t q' H Hw'lt Eq Hne) as (Hb & Hq & Nb).
       cbn [m_rcvd m_info m_wsnap arr_state] in Hb, Hq, Nb. rewrite (g_rcvd _ _ _ H) in Hb, Hq, Nb.
-      apply (IH k n _ sched' Hb Hkn); [rewrite Nb; exact Hny | exact Hn | lia].
+      destruct (IH k n _ sched' Hb Hkn ltac:(rewrite Nb; exact Hny) Hn ltac:(lia)) as (s' & sched'' & E & Hi' & Hn' & Hsn).
+      exists s', sched''. split; [exact E|]. split; [exact Hi'|]. split; [exact Hn'|]. intros HSnap. apply Hsn. exact HSnap.
   - exfalso. pose proof (g_info _ _ _ H k) as G. rewrite Ei in G. apply G. lia.
 Qed.
 
 (* ------------------------------------------------------------------ *)
-(* the end of the epoch, the fresh iterator, and the whole epoch *)
+(* the end of the epoch, the initial state, and the whole epoch *)
 Lemma next_data_end f s sched : InvG L L s ->
   exists s', next_data (S f) c s sched = (OStop, s', sched) /\ m_finished s' = true.
 Proof.
@@ -625,54 +654,47 @@ Proof.
   cbn [negb]. eexists; split; reflexivity.
 Qed.
 
-Lemma inv_ms0 : InvG 0 0 (ms0 c (repeat wk_fresh (c_W c)) (repeat (0, false) (c_W c))).
+(* any state that looks like the one __init__ builds before it primes the prefetch loop *)
+Lemma inv_start s : off <= length (c_batches c) ->
+  m_rcvd s = 0 -> m_send s = 0 -> m_siy s = off -> m_samp s = off -> m_cyc s = c0 mod c_W c -> m_info s = [] -> m_outst s = 0 ->
+  length (m_workers s) = c_W c -> (forall w, w < c_W c -> wk_q (nth w (m_workers s) wk_fresh) = [] /\ wk_dead (nth w (m_workers s) wk_fresh) = false) ->
+  m_status s = repeat true (c_W c) -> m_msnaps s = [] -> m_assert s = None ->
+  InvG 0 0 s.
 Proof.
-  assert (forall w, nth w (repeat wk_fresh (c_W c)) wk_fresh = wk_fresh) as Hn.
-  { intros w. generalize (c_W c). intros m. revert w. induction m as [|m IH]; intros [|w]; cbn; auto. }
-  constructor; unfold ms0; proj.
+  intros Hoff E1 E2 E3 E4 E5 E6 E7 E8 E9 E10 E11 E12.
+  constructor; rewrite ?E1, ?E2, ?E3, ?E4, ?E5, ?E6, ?E7, ?E10, ?E11, ?E12; try reflexivity.
+  - unfold L. lia.
   - lia.
-  - reflexivity.
-  - reflexivity.
-  - reflexivity.
-  - reflexivity.
-  - symmetry. apply Nat.mod_0_l. lia.
+  - lia.
+  - unfold wof. rewrite Nat.add_0_r. reflexivity.
   - constructor.
   - intros t. cbn. lia.
-  - reflexivity.
-  - reflexivity.
-  - apply repeat_length.
-  - intros w Hw. rewrite Hn. cbn. split; [exact I | split; [intros tk []|]]. intros t. split; [intros [] | intros [_ Hx]; discriminate].
-  - intros w Hw. rewrite Hn. reflexivity.
-  - reflexivity.
+  - exact E8.
+  - intros w Hw. destruct (E9 w Hw) as [Eq _]. rewrite Eq. cbn. split; [exact I | split; [intros tk []|]].
+    intros t. split; [intros [] | intros [_ Hx]; discriminate].
+  - intros w Hw. exact (proj2 (E9 w Hw)).
   - split; [exact I | split; [intros t m [] | intros t Ht; lia]].
-  - reflexivity.
 Qed.
 
 Lemma iter_put_inv : forall j i s, InvG 0 (Nat.min L i) s -> i + j <= c_W c * c_P c ->
-  InvG 0 (Nat.min L (i + j)) (iter_n (try_put_index c) j s) /\ m_ny (iter_n (try_put_index c) j s) = m_ny s.
+  InvG 0 (Nat.min L (i + j)) (iter_n (try_put_index c) j s) /\ same_rest s (iter_n (try_put_index c) j s).
 Proof.
   induction j as [|j IH]; intros i s H Hle; cbn [iter_n].
-  - rewrite Nat.add_0_r. split; [exact H | reflexivity].
+  - rewrite Nat.add_0_r. split; [exact H | repeat split; reflexivity].
   - destruct (Nat.lt_ge_cases (Nat.min L i) L) as [Hlt|Hge].
-    + destruct (try_put_inv 0 (Nat.min L i) s H Hlt ltac:(lia)) as [H1 (_ & N1 & _)].
+    + destruct (try_put_inv 0 (Nat.min L i) s H Hlt ltac:(lia)) as [H1 R1].
       replace (S (Nat.min L i)) with (Nat.min L (S i)) in H1 by lia.
-      destruct (IH (S i) _ H1 ltac:(lia)) as [H2 N2]. replace (i + S j) with (S i + j) by lia. split; [exact H2 | congruence].
+      destruct (IH (S i) _ H1 ltac:(lia)) as [H2 R2]. replace (i + S j) with (S i + j) by lia. split; [exact H2|].
+      unfold same_rest in *. intuition congruence.
     + assert (Nat.min L i = L) as E by lia. rewrite E in H. rewrite (try_put_end 0 s H ltac:(lia)).
       replace L with (Nat.min L (S i)) in H by lia.
-      destruct (IH (S i) _ H ltac:(lia)) as [H2 N2]. replace (i + S j) with (S i + j) by lia. split; assumption.
-Qed.
-
-Lemma inv_fresh : InvG 0 (Nat.min L (c_W c * c_P c)) (sdl_fresh c) /\ m_ny (sdl_fresh c) = 0.
-Proof.
-  unfold sdl_fresh. pose proof inv_ms0 as H0. replace 0 with (Nat.min L 0) in H0 at 2 by lia.
-  destruct (iter_put_inv (c_P c * c_W c) 0 _ H0 ltac:(lia)) as [H1 N1]. cbn [Nat.add] in H1.
-  rewrite (Nat.mul_comm (c_P c)) in *. split; [exact H1 | rewrite N1; reflexivity].
+      destruct (IH (S i) _ H ltac:(lia)) as [H2 R2]. replace (i + S j) with (S i + j) by lia. split; assumption.
 Qed.
 
 Lemma fuel_enough s : qsum (m_workers s) < FUEL c s.
 Proof. unfold FUEL, qsum. lia. Qed.
 
-(* the consumer-visible outcomes of one epoch: every __next__ until StopIteration *)
+(* the consumer-visible outcomes: every __next__ until StopIteration *)
 Fixpoint outcomes (n : nat) (s : ms) (sched : list nat) : list outcome :=
   match n with
   | 0 => []
@@ -683,8 +705,22 @@ Fixpoint outcomes (n : nat) (s : ms) (sched : list nat) : list outcome :=
 Lemma expected_not_stop k : expected k <> OStop.
 Proof. unfold expected. destruct (isbad k); discriminate. Qed.
 
+Lemma nextn_min k : nextn (Nat.min L (k + c_W c * c_P c)) = Nat.min L (S k + c_W c * c_P c).
+Proof. unfold nextn. destruct (Nat.min L (k + c_W c * c_P c) <? L) eqn:E; [apply Nat.ltb_lt in E | apply Nat.ltb_ge in E]; lia. Qed.
+
+Lemma sdl_next_map k s sched : k < L -> InvG k (Nat.min L (k + c_W c * c_P c)) s -> m_ny s + nerr k = ny0 + k ->
+  exists s' sched', sdl_next c s sched = (expected k, s', sched') /\
+                    InvG (S k) (Nat.min L (S k + c_W c * c_P c)) s' /\ m_ny s' + nerr (S k) = ny0 + S k /\ (Snap s -> Snap s').
+Proof.
+  intros Hlt H Hny.
+  assert (k < Nat.min L (k + c_W c * c_P c)) as Hkn by (assert (0 < c_W c * c_P c) by nia; lia).
+  unfold sdl_next.
+  destruct (next_data_map (FUEL c s) k _ s sched H Hkn Hny ltac:(lia) (fuel_enough s)) as (s' & sched' & E & H' & Hny' & Hsn).
+  rewrite nextn_min in H'. eauto 6.
+Qed.
+
 Lemma outcomes_from : forall d k s sched,
-  d = L - k -> k <= L -> InvG k (Nat.min L (k + c_W c * c_P c)) s -> m_ny s + nerr k = k ->
+  d = L - k -> k <= L -> InvG k (Nat.min L (k + c_W c * c_P c)) s -> m_ny s + nerr k = ny0 + k ->
   outcomes (S d) s sched = map expected (seq k d) ++ [OStop].
 Proof.
   induction d as [|d IH]; intros k s sched Hd HkL H Hny.
@@ -692,26 +728,225 @@ Proof.
     cbn [outcomes seq map app]. unfold sdl_next.
     assert (exists f, FUEL c s = S f) as [f ->] by (unfold FUEL; eexists; cbn; reflexivity).
     destruct (next_data_end f s sched H) as (s' & -> & _). reflexivity.
-  - assert (k < L) as Hlt by lia.
-    assert (k < Nat.min L (k + c_W c * c_P c)) as Hkn by (assert (0 < c_W c * c_P c) by nia; lia).
-    cbn [outcomes]. unfold sdl_next.
-    destruct (next_data_map (FUEL c s) k _ s sched H Hkn Hny ltac:(lia) (fuel_enough s)) as (s' & sched' & -> & H' & Hny').
-    assert (nextn (Nat.min L (k + c_W c * c_P c)) = Nat.min L (S k + c_W c * c_P c)) as En.
-    { unfold nextn. destruct (Nat.min L (k + c_W c * c_P c) <? L) eqn:E; [apply Nat.ltb_lt in E | apply Nat.ltb_ge in E]; lia. }
-    rewrite En in H'.
+  - cbn [outcomes].
+    destruct (sdl_next_map k s sched ltac:(lia) H Hny) as (s' & sched' & -> & H' & Hny' & _).
     assert (forall (o : outcome) (rest : list outcome), o <> OStop -> match o with OStop => [OStop] | _ => o :: rest end = o :: rest) as Hmatch
         by (intros o rest Ho; destruct o; congruence).
     rewrite (Hmatch _ _ (expected_not_stop k)). cbn [seq map app]. f_equal.
     apply (IH (S k)); [lia | lia | exact H' | exact Hny'].
 Qed.
 
-(* C03 / C05 / C10 for map-style datasets: for EVERY arrival schedule, an epoch of the multi-process iterator delivers
-   exactly the sampler's batches, each once, in sampler order, with an error outcome at exactly the batches that contain a
-   failing index, then StopIteration — and no internal assertion fires *)
-Theorem map_epoch_exact sched :
-  outcomes (S L) (sdl_fresh c) sched = map expected (seq 0 L) ++ [OStop].
+(* k further __next__ calls whose results are dropped: the replay loop of __init__ (and, read as a prefix of an epoch, any
+   k consecutive batches) *)
+Lemma replay_map : forall j k s sched,
+  k + j <= L -> InvG k (Nat.min L (k + c_W c * c_P c)) s -> m_ny s + nerr k = ny0 + k ->
+  exists s' sched', replay c j s sched = (s', sched') /\
+                    InvG (k + j) (Nat.min L (k + j + c_W c * c_P c)) s' /\ m_ny s' + nerr (k + j) = ny0 + (k + j) /\ (Snap s -> Snap s').
 Proof.
-  destruct inv_fresh as [H N]. apply outcomes_from; auto; try lia. rewrite N. reflexivity.
+  induction j as [|j IH]; intros k s sched Hle H Hny; cbn [replay].
+  - rewrite Nat.add_0_r. exists s, sched. auto.
+  - destruct (sdl_next_map k s sched ltac:(lia) H Hny) as (s1 & sched1 & -> & H1 & Hny1 & Hs1).
+    destruct (IH (S k) s1 sched1 ltac:(lia) H1 Hny1) as (s' & sched' & E & H' & Hny' & Hs').
+    replace (S k + j) with (k + S j) in * by lia. exists s', sched'. split; [exact E|]. split; [exact H'|]. split; [exact Hny'|]. intros HS. apply Hs', Hs1, HS.
 Qed.
 
 End MapStyle.
+
+(* ------------------------------------------------------------------------------------------------------------ *)
+(* Top-level statements *)
+Section Top.
+Variable c : cfg.
+Hypothesis Hkind : c_kind c = KMap.
+Hypothesis HW : 0 < c_W c.
+Hypothesis HP : 0 < c_P c.
+
+Definition LL := length (c_batches c).
+Definition badb (t : nat) : bool := existsb (fun i => existsb (Nat.eqb i) (c_bad c)) (nth t (c_batches c) []).
+(* what the user must see for batch number t *)
+Definition want (t : nat) : outcome := if badb t then OErr else OBatch (nth t (c_batches c) []).
+
+Lemma expected_want off k : expected c off k = want (off + k).
+Proof. reflexivity. Qed.
+
+Hypothesis Hgood0 : c_I c <= 1 \/ c_bad c = [].
+
+Lemma good_at (b : nat) : c_I c <= 1 \/ c_bad c = [] /\ b = b.
+Proof. destruct Hgood0; [left | right]; auto. Qed.
+
+Lemma nth_repeat_fresh w : nth w (repeat wk_fresh (c_W c)) wk_fresh = wk_fresh.
+Proof. generalize (c_W c). intros m. revert w. induction m as [|m IH]; intros [|w]; cbn; auto. Qed.
+
+Lemma fresh_good :
+  InvG c 0 0 0 (Nat.min (L c 0) (0 + c_W c * c_P c)) (sdl_fresh c) /\ m_ny (sdl_fresh c) = 0 /\ Snap c 0 0 (sdl_fresh c).
+Proof.
+  unfold sdl_fresh.
+  set (s0 := ms0 c (repeat wk_fresh (c_W c)) (repeat (0, false) (c_W c))).
+  assert (InvG c 0 0 0 (Nat.min (L c 0) 0) s0) as H0.
+  { rewrite Nat.min_0_r. apply (inv_start c HW HP 0 0 0 (good_at 0)); unfold s0, ms0; proj; try reflexivity; try lia.
+    - symmetry. apply Nat.mod_0_l. lia.
+    - apply repeat_length.
+    - intros w Hw. rewrite nth_repeat_fresh. split; reflexivity. }
+  destruct (iter_put_inv c Hkind HW HP 0 0 0 (good_at 0) (c_P c * c_W c) 0 s0 H0 ltac:(lia)) as [H1 (R1 & R2 & R3 & R4 & R5 & R6)].
+  rewrite (Nat.mul_comm (c_P c)) in *. split; [exact H1|]. split; [rewrite R2; reflexivity|].
+  unfold Snap. rewrite R2, R4, R5, R6. unfold s0, ms0. proj. cbn [sn_workers sn_step sn_main].
+  rewrite repeat_length. repeat split; auto.
+Qed.
+
+(* C03 / C05 / C10, map-style: for EVERY arrival schedule one epoch of the multi-process iterator delivers exactly the
+   sampler's batches, each once, in sampler order, with an error outcome at exactly the batches that contain a failing
+   index, then StopIteration; no internal assertion fires (the hypothesis Hgood0 excludes known finding D9) *)
+Theorem map_epoch_exact : forall sched,
+  outcomes c (S LL) (sdl_fresh c) sched = map want (seq 0 LL) ++ [OStop].
+Proof.
+  intros sched. destruct fresh_good as (H & N & _).
+  assert (L c 0 = LL) as EL by (unfold L, LL; lia).
+  pose proof (outcomes_from c Hkind HW HP 0 0 0 (good_at 0) LL 0 (sdl_fresh c) sched ltac:(lia) ltac:(lia) H ltac:(rewrite N; reflexivity)) as E.
+  exact E.
+Qed.
+
+End Top.
+
+(* ------------------------------------------------------------------------------------------------------------ *)
+(* C01, map-style: a checkpoint at ANY batch resumes the exact remaining stream, under EVERY pair of arrival schedules,
+   and the resumed iterator is again a good state — so any chain of checkpoint/resume is exact too. *)
+Section Resume.
+Variable c : cfg.
+Hypothesis Hkind : c_kind c = KMap.
+Hypothesis HW : 0 < c_W c.
+Hypothesis HP : 0 < c_P c.
+Hypothesis Hnobad : c_bad c = [].
+
+Lemma good_nb (b : nat) : c_I c <= 1 \/ c_bad c = [] /\ b = b.
+Proof. right. auto. Qed.
+
+Lemma nerr0 off k : nerr c off k = 0.
+Proof. apply nerr_nobad. exact Hnobad. Qed.
+
+(* "the iterator has been started at batch number off and has handed out k batches since" *)
+Definition Good (off c0 k : nat) (s : ms) : Prop :=
+  off <= LL c /\ k <= L c off /\ InvG c off c0 k (Nat.min (L c off) (k + c_W c * c_P c)) s /\
+  m_ny s = off + k /\ Snap c off off s.
+
+Lemma want_nobad t : want c t = OBatch (nth t (c_batches c) []).
+Proof. unfold want, badb. rewrite Hnobad, existsb_bad_nil. reflexivity. Qed.
+
+Lemma map_expected_shift off k d : map (expected c off) (seq k d) = map (want c) (seq (off + k) d).
+Proof.
+  revert k. induction d as [|d IH]; intros k; cbn [seq map]; [reflexivity|].
+  rewrite expected_want, IH. replace (off + S k) with (S (off + k)) by lia. reflexivity.
+Qed.
+
+(* from a good state, the rest of the epoch is exactly the remaining batches, for every schedule *)
+Theorem good_continuation off c0 k s sched : Good off c0 k s ->
+  outcomes c (S (LL c - (off + k))) s sched = map (want c) (seq (off + k) (LL c - (off + k))) ++ [OStop].
+Proof.
+  intros (Ho & Hk & H & Hny & _).
+  assert (LL c - (off + k) = L c off - k) as -> by (unfold L, LL in *; lia).
+  rewrite <- map_expected_shift.
+  apply (outcomes_from c Hkind HW HP off c0 off (good_nb off)); auto. rewrite nerr0. lia.
+Qed.
+
+Lemma good_replay off c0 k j s sched : Good off c0 k s -> k + j <= L c off ->
+  exists s' sched', replay c j s sched = (s', sched') /\ Good off c0 (k + j) s'.
+Proof.
+  intros (Ho & Hk & H & Hny & HS) Hle.
+  destruct (replay_map c Hkind HW HP off c0 off (good_nb off) j k s sched Hle H ltac:(rewrite nerr0; lia))
+    as (s' & sched' & E & H' & Hny' & HS').
+  exists s', sched'. split; [exact E|]. rewrite nerr0 in Hny'. unfold Good. split; [exact Ho|]. split; [lia|]. split; [exact H'|]. split; [lia | apply HS', HS].
+Qed.
+
+Lemma nth_map_restored (f : wsave -> wk) (l : list wsave) w :
+  (forall sv, wk_q (f sv) = [] /\ wk_dead (f sv) = false) ->
+  wk_q (nth w (map f l) wk_fresh) = [] /\ wk_dead (nth w (map f l) wk_fresh) = false.
+Proof.
+  intros Hf. revert w. induction l as [|a l IH]; intros [|w]; cbn; auto.
+Qed.
+
+(* state_dict() of a good state, loaded into a new iterator under ANY schedule, gives a good state at the same position *)
+Theorem resume_good off c0 k s sched : Good off c0 k s ->
+  exists sr sched' B c0', sdl_resume c (state_dict s) sched = (sr, sched') /\
+                          Good B c0' (off + k - B) sr /\ off <= B <= off + k.
+Proof.
+  intros (Ho & Hk & H & Hny & (S1 & S2 & S3 & S4)).
+  destruct (S4 Hnobad eq_refl) as (Sm & Sb1 & Sb2).
+  set (sn := m_snapshot s) in *. set (B := sn_step sn) in *.
+  assert (B <= LL c) as HB by (unfold L, LL in *; lia).
+  unfold sdl_resume. rewrite Hkind. cbn [state_dict sd_snapshot sd_steps sd_finished]. fold sn. fold B.
+  set (workers := map (fun sv : wsave => wk_restored (fst sv, if c_stateful c then snd sv else false)) (sn_workers sn)).
+  match goal with |- context [iter_n (try_put_index c) _ ?x] => set (s2 := x) end.
+  assert (InvG c B (S (sn_last sn)) 0 (Nat.min (L c B) 0) s2) as H2.
+  { rewrite Nat.min_0_r. apply (inv_start c HW HP B (S (sn_last sn)) B (good_nb B)); unfold s2, ms0; proj; try reflexivity.
+    - exact HB.
+    - rewrite Sm. reflexivity.
+    - rewrite Sm. reflexivity.
+    - unfold workers. rewrite map_length. exact S1.
+    - intros w Hw. unfold workers. apply nth_map_restored. intros sv. split; reflexivity. }
+  destruct (iter_put_inv c Hkind HW HP B (S (sn_last sn)) B (good_nb B) (c_P c * c_W c) 0 s2 H2 ltac:(lia))
+    as [H3 (R1 & R2 & R3 & R4 & R5 & R6)].
+  cbn [Nat.add] in H3. rewrite (Nat.mul_comm (c_P c)) in *.
+  set (s3 := iter_n (try_put_index c) (c_W c * c_P c) s2) in *.
+  assert (Good B (S (sn_last sn)) 0 s3) as G3.
+  { split; [exact HB|]. split; [lia|]. split; [exact H3|]. split; [rewrite R2; unfold s2; proj; fold B; lia|].
+    unfold Snap. rewrite R2, R4, R5, R6. unfold s2. proj. fold sn. fold B. repeat split; auto. }
+  assert (m_ny s - B <= L c B) as Hsteps by (unfold L, LL in *; lia).
+  destruct (good_replay B (S (sn_last sn)) 0 (m_ny s - B) s3 sched G3 ltac:(lia)) as (s4 & sched2 & E4 & (G4a & G4b & G4c & G4d & G4e)).
+  rewrite E4. cbn [Nat.add] in *.
+  eexists _, sched2, B, (S (sn_last sn)). split; [reflexivity|]. split; [|lia].
+  replace (off + k - B) with (m_ny s - B) by lia.
+  split; [exact G4a|]. split; [exact G4b|]. split.
+  - apply (inv_frame c B (S (sn_last sn)) _ _ s4 _ G4c); reflexivity || exact (g_ms _ _ _ _ _ _ G4c).
+  - split; [proj; exact G4d|]. destruct G4e as (T1 & T2 & T3 & T4). unfold Snap. proj.
+    split; [exact T1|]. split; [exact T2|]. split; [exact S3|]. exact T4.
+Qed.
+
+(* the headline: interrupt a fresh epoch after k batches under schedule sched1, take state_dict(), load it into a new
+   iterator under schedule sched2: what follows is exactly batches k, k+1, ... and then StopIteration *)
+Theorem map_resume_exact k sched1 sched2 : k <= LL c ->
+  let '(sk, _) := replay c k (sdl_fresh c) sched1 in
+  let '(sr, sched') := sdl_resume c (state_dict sk) sched2 in
+  outcomes c (S (LL c - k)) sr sched' = map (want c) (seq k (LL c - k)) ++ [OStop].
+Proof.
+  intros Hk.
+  destruct (fresh_good c Hkind HW HP (or_intror Hnobad)) as (H0 & N0 & S0).
+  assert (Good 0 0 0 (sdl_fresh c)) as G0 by (unfold Good; split; [lia|]; split; [lia|]; split; [exact H0|]; split; [lia | exact S0]).
+  destruct (good_replay 0 0 0 k _ sched1 G0 ltac:(unfold L, LL in *; lia)) as (sk & sc1 & -> & Gk).
+  destruct (resume_good 0 0 k sk sched2 Gk) as (sr & sched' & B & c0' & -> & Gr & HB).
+  pose proof (good_continuation B c0' (0 + k - B) sr sched' Gr) as E.
+  replace (B + (0 + k - B)) with k in E by lia. exact E.
+Qed.
+
+(* chains: k1 batches, checkpoint + resume, k2 batches, checkpoint + resume, ... : still exact *)
+Fixpoint chain (ks : list nat) (s : ms) (sched : list nat) : ms * list nat :=
+  match ks with
+  | [] => (s, sched)
+  | j :: r => let '(s1, sc1) := replay c j s sched in
+              let '(s2, sc2) := sdl_resume c (state_dict s1) sc1 in
+              chain r s2 sc2
+  end.
+
+Lemma chain_good : forall ks off c0 k s sched, Good off c0 k s -> off + k + fold_right Nat.add 0 ks <= LL c ->
+  exists off' c0' k' s' sched', chain ks s sched = (s', sched') /\ Good off' c0' k' s' /\ off' + k' = off + k + fold_right Nat.add 0 ks.
+Proof.
+  induction ks as [|j r IH]; intros off c0 k s sched G Hle; cbn [chain fold_right] in *.
+  - exists off, c0, k, s, sched. split; [reflexivity|]. split; [exact G | lia].
+  - destruct G as (Ho & Hk & Hrest).
+    destruct (good_replay off c0 k j s sched (conj Ho (conj Hk Hrest)) ltac:(unfold L, LL in *; lia)) as (s1 & sc1 & -> & G1).
+    destruct (resume_good off c0 (k + j) s1 sc1 G1) as (s2 & sc2 & B & c0' & -> & G2 & HB).
+    destruct (IH B c0' (off + (k + j) - B) s2 sc2 G2 ltac:(lia)) as (off' & c0'' & k' & s' & sched' & E & G' & Hpos).
+    exists off', c0'', k', s', sched'. split; [exact E|]. split; [exact G'|]. lia.
+Qed.
+
+Theorem map_resume_chain ks sched : fold_right Nat.add 0 ks <= LL c ->
+  let '(s, sched') := chain ks (sdl_fresh c) sched in
+  let p := fold_right Nat.add 0 ks in
+  outcomes c (S (LL c - p)) s sched' = map (want c) (seq p (LL c - p)) ++ [OStop].
+Proof.
+  intros Hle.
+  destruct (fresh_good c Hkind HW HP (or_intror Hnobad)) as (H0 & N0 & S0).
+  assert (Good 0 0 0 (sdl_fresh c)) as G0 by (unfold Good; split; [lia|]; split; [lia|]; split; [exact H0|]; split; [lia | exact S0]).
+  destruct (chain_good ks 0 0 0 _ sched G0 ltac:(lia)) as (off' & c0' & k' & s' & sched' & -> & G' & Hpos).
+  cbn zeta. pose proof (good_continuation off' c0' k' s' sched' G') as E.
+  rewrite Hpos in E. exact E.
+Qed.
+
+End Resume.
